@@ -112,9 +112,14 @@ def run(unit_text, workdir, name, rlimit=None, seed=None, extra=(), census=True,
     # when the front end (rustc / VIR translation) accepted the file, every remaining error diagnostic is a
     # failed proof obligation, whatever its wording; when it did not, nothing was verified
     vir_err = True
+    nothing_verified = False
     if js:
         vrs = js.get('verification-results', {})
         vir_err = bool(vrs.get('encountered-vir-error')) or ('verified' not in vrs)
+        # an error with no failed verification condition counted (macro / parser errors carry no rustc code): nothing was verified
+        if vrs.get('encountered-error') and not vrs.get('errors'):
+            vir_err = True
+            nothing_verified = True
     for line in p.stderr.split('\n'):
         line = line.strip()
         if not line.startswith('{'):
@@ -135,7 +140,7 @@ def run(unit_text, workdir, name, rlimit=None, seed=None, extra=(), census=True,
         kind = classify(msg)
         spans = d.get('spans', [])
         prim = [s for s in spans if s.get('is_primary')]
-        if d.get('code') or (vir_err and kind == 'other' and not _is_verification_msg(msg)):
+        if d.get('code') or nothing_verified or (vir_err and kind == 'other' and not _is_verification_msg(msg)):
             r.hard_errors.append((msg, prim[0]['line_start'] if prim else 0, d.get('rendered', '')))
             continue
         f = Failure()
